@@ -6,6 +6,7 @@ import (
 	"fmt"
 	"io"
 	"runtime"
+	"time"
 
 	ws "github.com/gorilla/websocket"
 
@@ -57,6 +58,9 @@ type c06Case struct {
 	ClaimAt int       `json:"claim_at_frame,omitempty"`
 	Ctl     bool      `json:"controls"`
 	Mode    int       `json:"mode"`
+	// LocalClose: the application sent its own close before reading; WriteBroken: every transport write fails
+	LocalClose  bool `json:"application_sent_close_first,omitempty"`
+	WriteBroken bool `json:"write_side_broken,omitempty"`
 }
 
 func runC06(ctx *core.Ctx, out *core.Out) {
@@ -69,6 +73,12 @@ func runC06(ctx *core.Ctx, out *core.Out) {
 		allocProbe(ctx, out, gen.For(ctx.Seed, "C06/alloc", ctx.Idx))
 	}
 	cs := c06Case{Server: r.Bool(), RB: r.BufSize(), Chunk: r.Intn(xport.NChunkStyles), Ctl: r.Chance(1, 3), Mode: r.Intn(2)}
+	switch r.Intn(8) {
+	case 0:
+		cs.LocalClose = true
+	case 1:
+		cs.WriteBroken = true
+	}
 	cs.L = int64([]int{1, 2, 10, 124, 125, 126, 127, 1000, 65535, 65536}[r.Intn(10)])
 	if r.Chance(1, 4) {
 		cs.L = int64(r.Range(1, 3000))
@@ -187,6 +197,17 @@ func runC06(ctx *core.Ctx, out *core.Out) {
 	nc := xport.New(xport.Rechunk(stream, cs.Chunk, r))
 	c := ws.VerifNewConn(nc, cs.Server, cs.RB, 256, nil, nil, false)
 	c.SetReadLimit(cs.L)
+	// the application may already have sent its close frame (and keeps reading), or the
+	// write side of the transport may be broken: neither changes what the reader must do
+	switch {
+	case cs.LocalClose:
+		if err := c.WriteControl(ws.CloseMessage, ws.FormatCloseMessage(1000, ""), time.Time{}); err != nil {
+			out.Inconcl("could not send the local close: " + err.Error())
+			return
+		}
+	case cs.WriteBroken:
+		nc.WriteErr = io.ErrClosedPipe
+	}
 
 	// play the history
 	fragmentedAbandoned := false
@@ -307,8 +328,19 @@ func runC06(ctx *core.Ctx, out *core.Out) {
 			return
 		}
 	}
+	if cs.WriteBroken {
+		out.Count("breaches_with_broken_write_side", 1)
+		return
+	}
 	// 1009 close: demanded for lengths < 2^63 whose running sum does not overflow
 	wf, rest, werr := wire.Decode(nc.Written())
+	if cs.LocalClose {
+		out.Count("breaches_after_local_close", 1)
+		if werr != nil || len(rest) > 0 || len(wf) != 1 || wf[0].Op != 8 {
+			fail("frames-after-local-close", fmt.Sprintf("%d frames on the wire although the application's close must be the last thing written", len(wf)))
+		}
+		return
+	}
 	closes := 0
 	for _, f := range wf {
 		if f.Op == 8 {
